@@ -165,6 +165,9 @@ impl Voter {
         if before == *inverse {
             waker.wake();
             VoteResult::Unanimous
+        } else if before == (*inverse | *flag) {
+            // Unanimity was already reached (and is never undone).
+            VoteResult::Unanimous
         } else {
             VoteResult::UnanimityPending
         }
@@ -192,6 +195,7 @@ impl Voter {
                 {
                     VoteResult::Unanimous
                 } else {
+                    voted.set(false);
                     VoteResult::UnanimityPending
                 }
             } else {
@@ -208,6 +212,7 @@ impl Voter {
                         )
                         .is_ok()
                     {
+                        voted.set(false);
                         break VoteResult::UnanimityPending;
                     }
                 }
